@@ -41,6 +41,7 @@ class _Shift:
 PROGRAMS = {
     "all": [], "tail": [("slice", 1, None, None)], "step": [("slice", None, None, 2)], "rev": [("slice", None, None, -1)],
     "mask": [("mask",)], "list": [("ilist", 2)], "fixed": [("fixed", [2, 0, 0])],
+    "list3": [("ilist", 3)], "fixed_asc": [("fixed", [0, 0, 2])],       # as many entries as the table has, with repeats (same total size possible)
     "mask_tail": [("mask",), ("slice", 1, None, None)], "tail_rev": [("slice", 1, None, None), ("slice", None, None, -1)],
     "step_list": [("slice", None, None, 2), ("ilist", 2)],
     "cat": [("concat", [("slice", 1, None, None)], [("slice", None, 2, None)])],
@@ -139,18 +140,30 @@ class WriteBack(Harness):
         "fastq_plusname": dict(fmt="fastq", records=[[1, 2], [2, 1], [1, 3]], plus_name=True),
         "fastq_crlf": dict(fmt="fastq", records=[[1, 2], [2, 1], [1, 3]], crlf=True),
         "fasta2_crlf": dict(fmt="fasta2", records=[[1, 2], [2, 1], [1, 3]], crlf=True),
+        # records of EQUAL byte length (a selection with repeats can then have exactly the size of the whole buffer)
+        "bed3_eq": dict(fmt="bed3", rows=[[1, 2, 1], [1, 2, 1], [1, 1, 2]]),
+        "fastq_eq": dict(fmt="fastq", records=[[1, 2], [1, 2], [2, 1]]),
+        "sam_crlf": dict(fmt="sam", rows=[[1, 1, 1, 2, 1, 2, 1, 1, 1, 2, 2, 2], [2, 1, 1, 1, 1, 1, 1, 1, 1, 1, 1, 3], [1, 2, 1, 1, 1, 1, 1, 1, 1, 1, 1, 1]],
+                         header=["@HD\tVN:1.0"], crlf=True),
     }
 
     def skeletons(self, tier, seed):
         out = []
         for name, f in self.FILES.items():
             progs = list(PROGRAMS) if (tier == "thorough" or name in ("bed3", "fastq")) else ["all", "tail", "mask", "fixed", "cat", "step_list"]
-            if name in ("bed3_crlf", "fastq_plusname", "fastq_crlf", "fasta2_crlf") and tier == "quick":
+            if name in ("bed3_crlf", "fastq_plusname", "fastq_crlf", "fasta2_crlf", "sam_crlf") and tier == "quick":
                 progs = ["all", "tail", "fixed", "cat"] if name != "fasta2_crlf" else ["tail", "mask"]
+            if name in ("bed3_eq", "fastq_eq"):
+                progs = ["list3", "fixed_asc"] + (["cat", "mask", "rev"] if tier == "thorough" else [])
             for p in progs:
                 out.append(dict(f, file=name, prog=p, replace=None))
             if name == "sam":
                 out.append(dict(f, file=name, prog="all", replace="position"))
+            if name in ("sam", "sam_crlf"):
+                # a replaced column on selections that are not a prefix of the file (the other cells, incl. the optional tags, keep their text)
+                for p in (["fixed", "rev", "tail"] if tier == "quick" else ["fixed", "rev", "tail", "mask", "list", "cat"]):
+                    out.append(dict(f, file=name, prog=p, replace="position"))
+                    out.append(dict(f, file=name, prog=p, replace="position", touch=["extra"]))
             if name in ("bed3", "bed6"):
                 for p in (["all", "tail", "mask", "fixed", "cat_fixed_step"] if tier == "quick" else list(PROGRAMS)):
                     out.append(dict(f, file=name, prog=p, replace="stop" if name == "bed3" else "start"))
@@ -188,7 +201,7 @@ class WriteBack(Harness):
         for k in range(nsym):
             for i in range(2 * n):
                 V.int(f"m{k}_{i}", 0, 1)
-            for j in range(2):
+            for j in range(3):
                 V.int(f"i{k}_{j}", 0, n - 1)
         if skel["replace"] or (skel.get("then") or {}).get("replace"):
             for j in range(2 * n + 2):
@@ -261,7 +274,7 @@ class WriteBack(Harness):
         idx = self._expected(skel, None, out["log"], out["m"])
         if len(idx) != out["m"]:
             return False
-        nl = [10]
+        nl = [13, 10] if skel.get("crlf") else [10]
         hdr = sum((list(h.encode()) + nl for h in skel.get("header", [])), [])
         got = out["bytes"]
         conj = []
@@ -289,6 +302,8 @@ class WriteBack(Harness):
             widths = skel["rows"][r]
             if len(cells) != len(widths):
                 return False
+            if skel.get("crlf") and cells[-1] and isinstance(cells[-1][-1], int) and cells[-1][-1] == 13:
+                cells[-1] = cells[-1][:-1]         # a re-assembled record of a CRLF file may end with CRLF or LF (the property is about the cells)
             for c, w in enumerate(widths):
                 if c == col:
                     if not cells[c]:
@@ -318,7 +333,7 @@ class WriteBack(Harness):
 
     def _oracle_one(self, skel, cx, cout):
         idx = self._expected(skel, None, cout["log"], cout["m"])
-        nl = [10]
+        nl = [13, 10] if skel.get("crlf") else [10]
         hdr = sum((list(h.encode()) + nl for h in skel.get("header", [])), [])
         text = bytes(F.seq_content(skel, cx) if is_seq(skel) else F.content(skel, cx))
         if not skel["replace"]:
@@ -330,7 +345,7 @@ class WriteBack(Harness):
                 cells = [[cx[f"c{r}_{c}_{k}"] for k in range(w)] for c, w in enumerate(skel["rows"][r])]
                 cells[col] = list(str(cx[f"new{j}"]).encode())
                 exp += [b for c, cell in enumerate(cells) for b in (cell + ([9] if c < len(cells) - 1 else [10]))]
-        if cout["bytes"] != exp:
+        if cout["bytes"] != exp and not (skel["replace"] and skel.get("crlf") and bytes(cout["bytes"]).replace(b"\r\n", b"\n") == bytes(exp).replace(b"\r\n", b"\n")):
             return (f"file {text!r} read lazily, program {skel['prog']} (choices {cout['log']}) selects records {idx}"
                     f"{', column ' + skel['replace'] + ' replaced' if skel['replace'] else ''}: written {bytes(cout['bytes'])!r}, expected {bytes(exp)!r}")
         return None
